@@ -6,7 +6,7 @@ Open Scope Z_scope.
 
 (* ---------------------------------------------------------------- well-formed tables *)
 Definition row_wf (c : cfg) (r : row) : Prop :=
-  NoDup (map pid (rall r)) /\ NoDup (map pid (rprodpods r)) /\ row_dims (dims c) r /\
+  NoDup (map pkey (rall r)) /\ NoDup (map pkey (rprodpods r)) /\ row_dims (dims c) r /\
   (forall p, In p (rall r) -> 0 <= pcpu p /\ 0 <= pmem p) /\
   (forall p, In p (rprodpods r) -> In p (rall r)).
 Definition tbl_wf (c : cfg) (tbl : list row) : Prop :=
@@ -35,7 +35,7 @@ Lemma rprodpods_mk_row c a p m : rprodpods (mk_row c a p m) = filter is_prod (rp
 Proof. reflexivity. Qed.
 
 Lemma wf_nround_props r : wf_nround r = true ->
-  NoDup (map pid (rpods r)) /\ forall p, In p (rpods r) -> 0 <= pcpu p /\ 0 <= pmem p.
+  NoDup (map pkey (rpods r)) /\ forall p, In p (rpods r) -> 0 <= pcpu p /\ 0 <= pmem p.
 Proof.
   unfold wf_nround. intros H. apply andb_true_iff in H. destruct H as [H1 H2].
   split; [apply nodupb_NoDup; exact H1|]. intros p Hp. rewrite forallb_forall in H2.
